@@ -631,4 +631,21 @@ def mulTTG (g1 : TTG S T) (g2 : TTG U V) (fuel : Nat) : Res (TTG (S × U) (T × 
 
 end MulG
 
+/-! ## a decidable sufficient condition for `at_most_k` to return (checked certificate) -/
+
+/-- all `(arguments taken, slot type)` with `t.endsWith slot = some arguments` -/
+def suffixesRec : Ty → List Ty → List (List Ty × Ty)
+  | .arrow a b, acc => (acc, .arrow a b) :: suffixesRec b (acc ++ [a])
+  | t, acc => [(acc, t)]
+
+def suffixes (t : Ty) : List (List Ty × Ty) := suffixesRec t []
+
+def tyRank (rkT : AList Ty Nat) (t : Ty) : Nat := (AList.lookup t rkT).getD 0
+
+/-- the certificate checker -/
+def uncountedRanked (dsl : Dsl) (name : String) (rkT : AList Ty Nat) : Bool :=
+  dsl.prims.all (fun p => decide (symStr p = name) ||
+    (suffixes p.ty).all (fun s => s.1.all (fun a => decide (tyRank rkT a < tyRank rkT s.2))))
+
+
 end PS.T
